@@ -134,7 +134,7 @@ contract(
 TS = "scriptplan/core/task_scenario.py"
 # what a booking may write: this resource's ledger and bookkeeping, its scoreboard marker, the duties list,
 # and limit counters (any limit: own, groups', the task's and its ancestors')
-BOOK_MODIFIES = ["$obj:self.slotSecondsUsed", "$obj:self.slotTaskUsage", "$region:ResourceScenario.slotTaskUsage.v",
+BOOK_MODIFIES = ["$obj:self.slotSecondsUsed", "$obj:self.slotTaskUsage", "$obj:ite(sb_idx in self.slotTaskUsage, self.slotTaskUsage[sb_idx], None)",
                  "$obj:self.firstBookedSlots", "$obj:self.lastBookedSlots", "ResourceScenario._effort@self",
                  "ResourceScenario.firstBookedSlot@self", "ResourceScenario.lastBookedSlot@self",
                  "$obj:some(self.scoreboard).sb", "$region:@duties", "Limit._dirty", "$region:Limit._scoreboard"]
@@ -182,6 +182,7 @@ contract(
         ("entry-task", "implies(result > 0, self.slotTaskUsage[sb_idx][len(self.slotTaskUsage[sb_idx]) - 1][0] == task)"),
         ("entry-seconds", "implies(result > 0, self.slotTaskUsage[sb_idx][len(self.slotTaskUsage[sb_idx]) - 1][1] == D(self) - old(used(self, sb_idx)))"),
         ("frame", "forall(s, implies(s != sb_idx, used(self, s) == old(used(self, s)) and usage(self, s) == old(usage(self, s))))"),
+        ("board-size", "self.scoreboard == old(self.scoreboard) and len(some(self.scoreboard).sb) == old(len(some(self.scoreboard).sb))"),
         # no other resource's ledger is touched
         ("others", "forall(o, 'Ref:ResourceScenario', implies(o != self and old(RSsep(o, self)), LedgerSame(o) and RSsep(o, self)))"),
         # C02: a booking happens only in a slot the resource is on shift for
